@@ -391,6 +391,13 @@ func (c *Ctx) runC13Case(idx int64, depth int, nRandom int64) {
 	m := r.Range(5, 8)
 	h := &apiHistory{M: m, P: r.Range(1, 3), C: []int{1, 2, 3, 5, 40}[r.Intn(5)]}
 	h.templates = []mars.WarriorCode{tImp, tDat, tLoop, tEmpty}
+	if r.Chance(1, 6) {
+		// a process limit above the core size is a process limit like any other; a splitter fills it
+		h.P = m + r.Range(1, 2*m)
+		h.C = 3*h.P + r.Intn(10)
+		spl := mars.Insn{Op: mars.SPL, Mod: mars.MB, AM: mars.DIR, BM: mars.DIR}
+		h.templates = append(h.templates, mars.WarriorCode{Code: []mars.Insn{spl, {Op: mars.JMP, Mod: mars.MB, AM: mars.DIR, BM: mars.DIR, A: m - 1}}})
+	}
 	for k := 0; k < 2; k++ {
 		l := r.Range(1, 4)
 		if r.Chance(1, 8) {
